@@ -550,6 +550,18 @@ func c10SkipBody(e *Env) {
 		return
 	}
 	n := 0
+	// closeConn / releaseConn by role (renamed private methods resolve through the role finders)
+	roleName := func(f *types.Func) string {
+		if f == nil {
+			return ""
+		}
+		for _, nm := range []string{"closeConn", "releaseConn"} {
+			if d := w.Func("pkg/protocol/http1", "HostClient", nm); d != nil && d.Obj == f {
+				return nm
+			}
+		}
+		return f.Name()
+	}
 	// decision helpers: `func (…) f(…, P bool) { if P { closeConn } else { releaseConn } }`
 	deciders := map[*types.Func]int{}
 	for _, fi := range declaredNonTest(w) {
@@ -565,7 +577,7 @@ func c10SkipBody(e *Env) {
 		ast.Inspect(is, func(m ast.Node) bool {
 			if c, ok := m.(*ast.CallExpr); ok {
 				if f := calleeOf(info, c); f != nil {
-					names[f.Name()] = true
+					names[roleName(f)] = true
 				}
 			}
 			return true
@@ -625,7 +637,7 @@ func c10SkipBody(e *Env) {
 				hit := false
 				ast.Inspect(b, func(m ast.Node) bool {
 					if c, ok := m.(*ast.CallExpr); ok {
-						if f := calleeOf(info, c); f != nil && f.Name() == name {
+						if f := calleeOf(info, c); f != nil && roleName(f) == name {
 							hit = true
 						}
 					}
